@@ -145,6 +145,8 @@ pub struct Mon {
     pub upgrade_none: Set,
     /// some record exceeded the handles held when the running call started (cause predicate of the C13 finding)
     pub stale_at_start: bool,
+    /// a dry-run CloneOwn script met a handle to a dead (or dying) object (C16)
+    pub noted_dead_clone: bool,
     pub viol: Vec<Viol>,
 }
 
@@ -169,6 +171,7 @@ impl Mon {
             died_now: 0,
             upgrade_none: 0,
             stale_at_start: false,
+            noted_dead_clone: false,
             viol: Vec::new(),
         }
     }
@@ -710,8 +713,9 @@ impl Mon {
             v.push(Script::Panic);
         }
         if c.scripts_dead_handle {
-            for k in 0..self.slots[o as usize].len.max(1) {
+            for k in 0..self.slots[o as usize].len {
                 v.push(Script::DropOwn(k));
+                v.push(Script::CloneOwn(k));
             }
         }
         v
